@@ -37,9 +37,11 @@ def run(ctx):
     check_where(ctx, V)
     check_get_identifiers(ctx, V)
     check_get_parameters(ctx)
+    check_function_names(ctx)
     check_case_typed(ctx, V)
     from .. import rules_tree as RT2
     ctx.rule('R13.5', 'grouping is total: no size/depth cut-off in the drivers and passes this property relies on', floor=1)
+    RT2.check_recursion_coverage(ctx, 'R13.5', only={'group_where', 'group_identifier_list', 'group_functions', 'group_comparison', 'group_typed_literal', 'group_case', 'group_parenthesis', 'group_operator'})
     RT2.check_no_cutoff(ctx, 'R13.5', only={'_group', 'group_where', 'group_identifier_list', 'group_functions', 'group_comparison', 'group_typed_literal', '_group_matching'})
 
 
@@ -118,6 +120,50 @@ def check_get_identifiers(ctx, V):
         ctx.ob('R13.2', f'kind:{k.label}', f'{f.mod.relpath}:{body[0].lineno}',
                f'get_identifiers {"yields" if want else "drops"} a {k.label} item', got == want,
                f'filter `{src(cond)}` evaluates to {got} on {k.label}: a written list item is dropped, or a separator is returned as an item')
+
+
+FUNCTION_NAME_TYPES = [TT(('Name',)), TT(('Name', 'Builtin'))]
+
+
+def check_function_names(ctx):
+    """R13.3: the lookup group_functions uses to find the name of a call accepts every type the lexer gives to a word that can be
+    followed by `(`: plain names (also every keyword directly before `(`, via the rule `[A-Z]\\w*(?=\\()`) and builtin type names when a
+    blank separates them from the parenthesis (`date (x)`, `char (65)`).  A tuple passed as t= compares by equality, a single type by
+    containment: `(T.Name, T.Name.Placeholder)` accepts fewer tokens than `T.Name`."""
+    repo = ctx.repo
+    f = repo.func('sqlparse.engine.grouping.group_functions')
+    lookups = [n for n in own_nodes(f.node, include_lambdas=False) if isinstance(n, ast.Call) and isinstance(n.func, ast.Attribute)
+               and n.func.attr == 'token_next_by' and any(k.arg in ('t', 'm', 'i') for k in n.keywords)]
+    env = {}
+    for s_ in f.node.body:
+        if isinstance(s_, ast.Assign) and is_name(s_.targets[0]):
+            try:
+                env[s_.targets[0].id] = ctx.folder.eval(s_.value, f.mod, env)
+            except NotConst:
+                pass
+    name_lookups = []
+    for c in lookups:
+        kw = {}
+        try:
+            for k in c.keywords:
+                if k.arg in ('t', 'm', 'i'):
+                    v_ = ctx.folder.eval(k.value, f.mod, env)
+                    if v_ is not None:
+                        kw[k.arg] = v_
+        except NotConst:
+            continue
+        if 't' in kw and 'm' not in kw:
+            name_lookups.append((c, kw))
+    ctx.need(name_lookups, 'group_functions: no token_next_by(t=...) lookup of the function name found')
+    ev = ME.Evaluator(ctx, f.mod)
+    for c, kw in name_lookups:
+        for tt in FUNCTION_NAME_TYPES:
+            tok = ME.AbsToken(repo, ttype=tt, value='date')
+            got = ev.imt(tok, i=kw.get('i'), t=kw.get('t'))
+            ctx.ob('R13.3', f'function-name:{tt!r}:{c.lineno - f.node.lineno}', f'{f.mod.relpath}:{c.lineno}',
+                   f'`{src(c)[:60]}` finds a {tt!r} token as the name of a call', got,
+                   f't={kw.get("t")}: a {tt!r} word followed by a blank and "(" (e.g. `date (a, b)`) is not a candidate, so no Function node is built '
+                   'and get_parameters() is unavailable (a tuple of types matches by equality, not containment)')
 
 
 def check_get_parameters(ctx):
